@@ -64,7 +64,30 @@ def run_index(unit, fn, em, vt):
         return
     idx = fn.params[0]['d']
     got = {}
+    collect_index(unit, fn, idx, vt, em, got, 0)
+    finish_index(fn, em, got)
+
+
+def collect_index(unit, fn, idx, vt, em, got, depth):
     for n in fn.walk(lambdas=False):
+        # the index functor handed on to a helper of the repository: what the helper indexes counts as well
+        if depth < 2 and n['k'] in ('CallExpr', 'CXXMemberCallExpr') and n.get('inrepo') and n.get('cd') is not None:
+            g = unit.by_decl.get(n['cd'])
+            if g is not None and g.body is not None and g is not fn:
+                for i, a in enumerate(n.get('args') or []):
+                    sa = strip(a)
+                    if sa is not None and sa['k'] == 'DeclRefExpr' and sa.get('d') == idx and i < len(g.params):
+                        cond = False
+                        p = n.get('_p')
+                        while p is not None and p is not fn.body:
+                            if p['k'] in ('IfStmt', 'ConditionalOperator', 'SwitchStmt'):
+                                cond = True
+                            p = p.get('_p')
+                        sub = {}
+                        collect_index(unit, g, g.params[i]['d'], var_table(g), em, sub, depth + 1)
+                        if not cond:
+                            for r, node in sub.items():
+                                got.setdefault(r, n)
         if n['k'] == 'CXXOperatorCallExpr' and n.get('op') == '()' and n.get('args') and (strip(n['args'][0]) or {}).get('d') == idx and len(n['args']) > 1:
             roles = classify(sources(unit, fn, n['args'][1], vt))
             cond = False
@@ -81,6 +104,9 @@ def run_index(unit, fn, em, vt):
                 if not cond:
                     got.setdefault(r, n)
             em.ok(n, txt, 'indexes ' + '/'.join(sorted(roles)), 'index')
+
+
+def finish_index(fn, em, got):
     for r, why in (('parent', 'a state that only occurs as the parent of rules is not numbered'),
                    ('children', 'a state that only occurs as a child is not numbered'),
                    ('final', 'a final state without rules is not numbered: the state count handed to the simulation is too small and the state is translated late or not at all')):
